@@ -129,6 +129,44 @@ func init() {
 		})
 		return res
 	}
+	// strings.Builder: a ghost string per builder
+	sbKey := func(e *Exec, st *State, recv Val, where string) int {
+		p := e.ptr(st, recv, where)
+		if p == nil {
+			panic(&UnsupportedErr{Msg: "strings.Builder through a nil pointer at " + where})
+		}
+		return e.ghostKey(p, "builder", &StrV{})
+	}
+	stubs["(*strings.Builder).WriteString"] = func(e *Exec, st *State, fn *ssa.Function, args []Val, where string) Val {
+		k := sbKey(e, st, args[0], where)
+		st.Mem[k] = e.strConcat(e.ghostLoad(st, k), args[1])
+		return TupleV{e.F.FromIndexInt(e.strLenT(args[1]), types.Typ[types.Int]), &IfaceV{}}
+	}
+	wr := func(e *Exec, st *State, fn *ssa.Function, args []Val, where string) Val {
+		k := sbKey(e, st, args[0], where)
+		c, ok := e.term(args[1], "rune").ConstInt()
+		if !ok || c >= 128 {
+			panic(&UnsupportedErr{Msg: "strings.Builder: symbolic or non-ASCII character at " + where})
+		}
+		st.Mem[k] = e.strConcat(e.ghostLoad(st, k), &StrV{Conc: string(rune(c))})
+		if fn.Name() == "WriteByte" {
+			return &IfaceV{}
+		}
+		return TupleV{e.F.IntConst(big.NewInt(1), types.Typ[types.Int]), &IfaceV{}}
+	}
+	stubs["(*strings.Builder).WriteRune"] = wr
+	stubs["(*strings.Builder).WriteByte"] = wr
+	stubs["(*strings.Builder).String"] = func(e *Exec, st *State, fn *ssa.Function, args []Val, where string) Val {
+		return e.ghostLoad(st, sbKey(e, st, args[0], where))
+	}
+	stubs["(*strings.Builder).Len"] = func(e *Exec, st *State, fn *ssa.Function, args []Val, where string) Val {
+		return e.F.FromIndexInt(e.strLenT(e.ghostLoad(st, sbKey(e, st, args[0], where))), types.Typ[types.Int])
+	}
+	stubs["(*strings.Builder).Reset"] = func(e *Exec, st *State, fn *ssa.Function, args []Val, where string) Val {
+		st.Mem[sbKey(e, st, args[0], where)] = &StrV{}
+		return nil
+	}
+	stubs["(*strings.Builder).Grow"] = func(e *Exec, st *State, fn *ssa.Function, args []Val, where string) Val { return nil }
 	stubs["(*sync.Pool).Put"] = func(e *Exec, st *State, fn *ssa.Function, args []Val, where string) Val {
 		p := e.ptr(st, args[0], where)
 		if p == nil {
